@@ -276,10 +276,30 @@ def gen_cases(rng, insts, tier):
                         variants.append((0, [], None))
                         if rng.random() < 0.3 and inst.pv <= M:
                             variants.append((2, [], inst.pv))      # run-time value must equal the static one
+            if inst.lay in (3, 4) and R >= 2:
+                # the padded mapping obtained by conversion from layout_stride::mapping(extents, strides): the strides
+                # of a padded layout with some padded stride ps >= the padded extent (zero extents allowed where no
+                # stride is a multiple of them: the padded and the outermost position)
+                pad = es[inst.pad_pos()]
+                inner = es[1:-1]
+                cands = []
+                if inst.pv == DYN:
+                    cands = [max(pad, 1), pad + 1, pad + 3, 2 * pad + 1]
+                elif pad > 0 and inst.pv > 0:
+                    cands = [lm(inst.pv, pad)]
+                if 0 not in inner and (inst.pat[inst.pad_pos()] == DYN or inst.pv == DYN or inst.pv == 0 or True):
+                    for ps in rng.sample(cands, min(2, len(cands))):
+                        if inst.lay == 3:
+                            ss = [1] + [ps * prod1(es[1:k]) for k in range(1, R)]
+                        else:
+                            ss = [ps * prod1(es[k + 1:R - 1]) for k in range(R - 1)] + [1]
+                        spanv = max(ps, 1) * prod1(es[1:] if inst.lay == 3 else es[:-1])
+                        if all(0 < s <= M for s in ss) and spanv <= M and prod1(es) <= M:
+                            variants.append((4, ss, None))
             for ctor, ss, dpv in variants:
                 npts = prod1(es) if 0 not in es else 0
                 toks = [inst.id, t, inst.lay, inst.pv, R] + list(inst.pat) + [ctor] + list(es)
-                if inst.lay == 2:
+                if inst.lay == 2 or ctor == 4:
                     toks += ss
                 if ctor == 2:
                     toks.append(dpv)
